@@ -139,6 +139,8 @@ fn check(case: &Case, p: &mut Probe) -> Check {
                 "ebn0-list-descending" => "ebn0-list-descending",
                 "another-simulation-running-in-the-process" => "another-simulation-running-in-the-process",
                 "puncturing-interleaving-or-8psk" => "puncturing-interleaving-or-8psk",
+                "through-the-builder" => "through-the-builder",
+                "through-the-builder-iteration-limit-0" => "through-the-builder-iteration-limit-0",
                 _ => "other",
             };
             p.class(st);
@@ -519,6 +521,14 @@ fn run_case(c: &Case) -> serde_json::Value {
                 1 => BerTest::<Bpsk, _>::new(hh.clone(), factory, Some(&[true, true, true, true, false]), Some(4), c.max_err, 7, &ebn0s, reporter, bch_t).map_err(|e| e.to_string())?.run().map_err(|e| e.to_string()),
                 2 => BerTest::<Bpsk, _>::new(hh.clone(), factory, Some(&[true, true, true, true, false]), Some(-8), c.max_err, 7, &ebn0s, reporter, bch_t).map_err(|e| e.to_string())?.run().map_err(|e| e.to_string()),
                 3 => BerTest::<Psk8, _>::new(hh.clone(), factory, Some(&[true, true, true, false, false]), None, c.max_err, 7, &ebn0s, reporter, bch_t).map_err(|e| e.to_string())?.run().map_err(|e| e.to_string()),
+                // one plain configuration in six is built through BerTestBuilder (as the command-line tool
+                // does), half of these with an iteration limit of 0 (legal: hard decisions only; the
+                // scripted decoder does not look at the limit)
+                _ if (c.seed / 7) % 6 == 3 => {
+                    use ldpc_toolbox::simulation::factory::{Ber, BerTestBuilder, Modulation};
+                    let b: Box<dyn Ber> = BerTestBuilder { h: hh.clone(), decoder_implementation: factory, modulation: Modulation::Bpsk, puncturing_pattern: None, interleaving_columns: None, max_frame_errors: c.max_err, max_iterations: if (c.seed / 7) % 12 == 3 { 0 } else { 7 }, ebn0s_db: &ebn0s, reporter, bch_max_errors: bch_t }.build().map_err(|e| e.to_string())?;
+                    b.run().map_err(|e| e.to_string())
+                }
                 _ => BerTest::<Bpsk, _>::new(hh.clone(), factory, None, None, c.max_err, 7, &ebn0s, reporter, bch_t).map_err(|e| e.to_string())?.run().map_err(|e| e.to_string()),
             },
         }
@@ -547,6 +557,9 @@ fn run_case(c: &Case) -> serde_json::Value {
     };
     if no_reporter {
         classes.push("no-reporter");
+    }
+    if c.inject == Inject::None && c.chain == 0 && (c.seed / 7) % 6 == 3 {
+        classes.push(if (c.seed / 7) % 12 == 3 { "through-the-builder-iteration-limit-0" } else { "through-the-builder" });
     }
     if c.chain != 0 && c.inject == Inject::None {
         classes.push("puncturing-interleaving-or-8psk");
@@ -683,7 +696,7 @@ pub fn property() -> Property {
         subs: vec![
             Box::new(Sub {
                 name: "statistics",
-                rule: "each case in a child process pinned (sched_setaffinity) to 1..16 CPUs, so that the engine starts that many workers; BPSK, 40 dB, no puncturing (a third of the cases: parity blocks punctured with an interleaver of 4 or -8 columns, or 8PSK with puncturing, block sizes that fit the transmitted but not the codeword length): the hard decision of the LLRs of the systematic part is the message; a scripted decoder (per decoder instance and frame: type and delay from a hash of the case seed; delays none / yield / 0-200 us sleeps / stalled even workers) returns it with e_t systematic bits flipped (parity bits too in some types), verdict v_t and iteration count B^t (B = 1024) for six frame types (one script in seven: a single worker decodes 600..=899 error-free frames in a row before its first frame error) (0, 0, 1, T = exactly the outer-code threshold, T+1 with a success verdict = false decode, k bit errors; T drawn from 1..=4), so total_iterations decodes uniquely into counted frames per type and every reported number is predicted exactly (frames, frame errors, false decodes, systematic bit errors, correct-frame iterations, outer-code accounting with threshold T, BER/FER/averages as ratios, stop exactly at max_frame_errors in 1..=40 (one case in 25: a target of 0, which every point meets before its first frame), counted <= produced per type); report stream: same identities, frame counts non-decreasing per point, last report = returned entry, 'finished' exactly once and last; all decoders built are dropped when run() returns; with one worker the counted set is exactly the script prefix; 1-3 Eb/N0 points (ascending, descending, with a value repeated or all equal; lists with repeats run without a reporter), with/without outer-code threshold; one case in five runs without a reporter (return value only); one case in four while a second, unrelated simulation keeps running on another thread of the same process; non-trivial = >= 2 workers and >= 3 frame types counted; inner = frames decoded",
+                rule: "each case in a child process pinned (sched_setaffinity) to 1..16 CPUs, so that the engine starts that many workers; one plain configuration in six built through BerTestBuilder instead of BerTest::new, half of these with an iteration limit of 0; BPSK, 40 dB, no puncturing (a third of the cases: parity blocks punctured with an interleaver of 4 or -8 columns, or 8PSK with puncturing, block sizes that fit the transmitted but not the codeword length): the hard decision of the LLRs of the systematic part is the message; a scripted decoder (per decoder instance and frame: type and delay from a hash of the case seed; delays none / yield / 0-200 us sleeps / stalled even workers) returns it with e_t systematic bits flipped (parity bits too in some types), verdict v_t and iteration count B^t (B = 1024) for six frame types (one script in seven: a single worker decodes 600..=899 error-free frames in a row before its first frame error) (0, 0, 1, T = exactly the outer-code threshold, T+1 with a success verdict = false decode, k bit errors; T drawn from 1..=4), so total_iterations decodes uniquely into counted frames per type and every reported number is predicted exactly (frames, frame errors, false decodes, systematic bit errors, correct-frame iterations, outer-code accounting with threshold T, BER/FER/averages as ratios, stop exactly at max_frame_errors in 1..=40 (one case in 25: a target of 0, which every point meets before its first frame), counted <= produced per type); report stream: same identities, frame counts non-decreasing per point, last report = returned entry, 'finished' exactly once and last; all decoders built are dropped when run() returns; with one worker the counted set is exactly the script prefix; 1-3 Eb/N0 points (ascending, descending, with a value repeated or all equal; lists with repeats run without a reporter), with/without outer-code threshold; one case in five runs without a reporter (return value only); one case in four while a second, unrelated simulation keeps running on another thread of the same process; non-trivial = >= 2 workers and >= 3 frame types counted; inner = frames decoded",
                 cases: |t| t.pick(6_000, 150_000),
                 strategy,
                 check,
